@@ -209,7 +209,7 @@ func CheckTrickle(root *Node, width int) []Issue {
 			out = append(out, Issue{Kind: "trickle/too-deep", Clause: "a subtree with depth budget d only has sub-subtrees with budget < d", Path: n.Path,
 				Child:    width + DepthRepeat*(budget-1),
 				Expected: fmt.Sprintf("at most %d children (budget %d)", width+DepthRepeat*(budget-1), budget), Observed: fmt.Sprintf("%d children", n.NLinks),
-				Over:     maxrd - budget + 1})
+				Over: maxrd - budget + 1})
 		}
 		for i, c := range n.Children {
 			if i < width {
